@@ -574,7 +574,9 @@ func c07stack(c *an.Ctx) {
 				}
 			}
 		})
-		q := &an.PathQ{Fn: fn, StartEdges: nn, Sink: an.IsReturn, Cut: func(in ssa.Instruction, _ *an.PathState) bool { return isStdCall(in, "compress/flate", "(*Writer).Flush") }}
+		q := &an.PathQ{Fn: fn, StartEdges: nn, Sink: an.IsReturn, Cut: func(in ssa.Instruction, _ *an.PathState) bool {
+			return isStdCall(in, "compress/flate", "(*Writer).Flush")
+		}}
 		_, f := q.Find()
 		if ok && !f && len(nn) > 0 {
 			c.OK(fn, "Flush drains bufio then deflate", fn.Pos(), "")
@@ -625,69 +627,7 @@ func c07envelope(c *an.Ctx) {
 			}
 		})
 	}
-	// the fan-out copy carries the source's timestamp (and deferral) before it is handed to a channel;
-	// the copy may be built in the pump or in a helper the pump calls
-	if fn := c.Fn("nsqd", "(*Topic).messagePump"); fn != nil {
-		newMsg := c.P.Func("nsqd", "NewMessage")
-		chPut := c.P.Func("nsqd", "(*Channel).PutMessage")
-		chPutD := c.P.Func("nsqd", "(*Channel).PutMessageDeferred")
-		defF := c.P.Field("nsqd", "Message", "deferred")
-		isPut := func(in ssa.Instruction, _ *an.PathState) bool { return isCallToOn(in, chPut, nil) || isCallToOn(in, chPutD, nil) }
-		keeps := func(in *ssa.Function, nc *ssa.Call, src ssa.Value, sink func(ssa.Instruction, *an.PathState) bool, fld *types.Var) bool {
-			q := &an.PathQ{Fn: in, StartAfter: []ssa.Instruction{nc}, Sink: sink,
-				Cut: func(x ssa.Instruction, _ *an.PathState) bool {
-					st, ok := x.(*ssa.Store)
-					if !ok {
-						return false
-					}
-					fa, ok := st.Addr.(*ssa.FieldAddr)
-					if !ok || an.FieldOf(fa) != fld || !an.SameValue(fa.X, nc) {
-						return false
-					}
-					f, base := an.LoadedField(an.Strip(st.Val))
-					return f == fld && an.SameValue(base, src)
-				}}
-			_, f := q.Find()
-			return !f
-		}
-		seen := map[*ssa.Call]bool{}
-		copies := 0
-		for _, ci := range an.CallsTo(fn, chPut, chPutD) {
-			for _, o := range an.Origins(arg(ci, 0)) {
-				call, ok := o.(*ssa.Call)
-				if !ok || seen[call] {
-					continue
-				}
-				if pt, ok := call.Type().(*types.Pointer); !ok || !types.Identical(pt.Elem(), c.P.Named("nsqd", "Message")) {
-					continue
-				}
-				seen[call] = true
-				mc := msgCopyOf(call, newMsg)
-				if mc == nil {
-					if an.IsCallTo(call, newMsg) || len(an.Origins(arg(ci, 0))) > 1 {
-						c.Bad(fn, "fan-out copy is NewMessage(src.ID, src.Body)", call.Pos(), "a message handed to a channel is built by "+describeCall(call)+", which is not a copy of the source message's ID and Body", nil)
-					}
-					continue
-				}
-				copies++
-				for _, fld := range []*types.Var{tsF, defF} {
-					good := false
-					if mc.Helper == nil {
-						good = keeps(fn, mc.Call, mc.Src, isPut, fld)
-					} else {
-						good = true
-						for _, nc := range mc.Inner {
-							if !keeps(mc.Helper, nc, mc.Param, an.IsReturn, fld) {
-								good = false
-							}
-						}
-					}
-					c.Check(good, fn, "fan-out copy keeps the source's "+fld.Name(), call.Pos(), "", "the per-channel copy ("+describeCall(call)+") can be handed to a channel without the source message's "+fld.Name()+": the same message shows a different "+fld.Name()+" on different channels")
-				}
-			}
-		}
-		c.Check(copies > 0, fn, "fan-out copy located", fn.Pos(), "", "no per-channel copy (NewMessage(src.ID, src.Body), direct or via a helper) found among the messages the topic pump hands to channels")
-	}
+	fanoutCopyKeeps(c, []*types.Var{tsF})
 	// guid.Hex
 	if fn := c.Fn("nsqd", "(guid).Hex"); fn != nil {
 		shifts := map[int64]int64{} // byte index -> shift
@@ -728,4 +668,102 @@ func c07envelope(c *an.Ctx) {
 		idLen, _ := constVal(c, "nsqd", "MsgIDLength")
 		c.Check(good && enc && idLen == 16, fn, "id = 16 hex digits of the big-endian guid", fn.Pos(), "", sprintf("guid.Hex does not hex-encode the 8 bytes of the guid most-significant first (shifts %v): ids are no longer unique/ordered renderings of the guid", shifts))
 	}
+}
+
+// fanoutCopyKeeps: the per-channel copy the topic pump hands to a channel carries the source message's value
+// of each of fields. The copy may be built in the pump or in a helper the pump calls.
+func fanoutCopyKeeps(c *an.Ctx, fanoutFields []*types.Var) {
+	// the fan-out copy carries the source's timestamp (and deferral) before it is handed to a channel;
+	// the copy may be built in the pump or in a helper the pump calls
+	if fn := c.Fn("nsqd", "(*Topic).messagePump"); fn != nil {
+		newMsg := c.P.Func("nsqd", "NewMessage")
+		chPut := c.P.Func("nsqd", "(*Channel).PutMessage")
+		chPutD := c.P.Func("nsqd", "(*Channel).PutMessageDeferred")
+		isPut := func(in ssa.Instruction, _ *an.PathState) bool {
+			return isCallToOn(in, chPut, nil) || isCallToOn(in, chPutD, nil)
+		}
+		keeps := func(in *ssa.Function, nc *ssa.Call, src ssa.Value, sink func(ssa.Instruction, *an.PathState) bool, fld *types.Var) bool {
+			q := &an.PathQ{Fn: in, StartAfter: []ssa.Instruction{nc}, Sink: sink,
+				Cut: func(x ssa.Instruction, _ *an.PathState) bool {
+					st, ok := x.(*ssa.Store)
+					if !ok {
+						return false
+					}
+					fa, ok := st.Addr.(*ssa.FieldAddr)
+					if !ok || an.FieldOf(fa) != fld || !an.SameValue(fa.X, nc) {
+						return false
+					}
+					f, base := an.LoadedField(an.Strip(st.Val))
+					return f == fld && an.SameValue(base, src)
+				}}
+			_, f := q.Find()
+			return !f
+		}
+		seen := map[*ssa.Call]bool{}
+		copies := 0
+		for _, ci := range an.CallsTo(fn, chPut, chPutD) {
+			for _, o := range an.Origins(arg(ci, 0)) {
+				call, ok := o.(*ssa.Call)
+				if !ok || seen[call] {
+					continue
+				}
+				if pt, ok := call.Type().(*types.Pointer); !ok || !types.Identical(pt.Elem(), c.P.Named("nsqd", "Message")) {
+					continue
+				}
+				seen[call] = true
+				mc := msgCopyOf(call, newMsg)
+				if mc == nil {
+					if an.IsCallTo(call, newMsg) || len(an.Origins(arg(ci, 0))) > 1 {
+						c.Bad(fn, "fan-out copy is NewMessage(src.ID, src.Body)", call.Pos(), "a message handed to a channel is built by "+describeCall(call)+", which is not a copy of the source message's ID and Body", nil)
+					}
+					continue
+				}
+				copies++
+				for _, fld := range fanoutFields {
+					good := false
+					if mc.Helper == nil {
+						good = keeps(fn, mc.Call, mc.Src, isPut, fld) || zeroAt(mc.Call.Block(), mc.Src, fld, newMsg)
+					} else {
+						good = true
+						for _, nc := range mc.Inner {
+							if !keeps(mc.Helper, nc, mc.Param, an.IsReturn, fld) {
+								good = false
+							}
+						}
+					}
+					c.Check(good, fn, "fan-out copy keeps the source's "+fld.Name(), call.Pos(), "", "the per-channel copy ("+describeCall(call)+") can be handed to a channel without the source message's "+fld.Name()+": the same message shows a different "+fld.Name()+" on different channels")
+				}
+			}
+		}
+		c.Check(copies > 0, fn, "fan-out copy located", fn.Pos(), "", "no per-channel copy (NewMessage(src.ID, src.Body), direct or via a helper) found among the messages the topic pump hands to channels")
+	}
+}
+
+// zeroAt: at block b the source's field fld is known to be zero, and NewMessage leaves fld at its zero value –
+// the fresh copy then already agrees with the source.
+func zeroAt(b *ssa.BasicBlock, src ssa.Value, fld *types.Var, newMsg *ssa.Function) bool {
+	writes := false
+	an.Instrs(newMsg, func(in ssa.Instruction) {
+		if st, ok := in.(*ssa.Store); ok {
+			if fa, ok := st.Addr.(*ssa.FieldAddr); ok && an.FieldOf(fa) == fld {
+				writes = true
+			}
+		}
+	})
+	if writes {
+		return false
+	}
+	for _, cmp := range an.CmpsAt(b) {
+		if cmp.Op != token.EQL {
+			continue
+		}
+		f, base := an.LoadedField(an.Strip(cmp.X))
+		if f != fld || !an.SameValue(base, src) {
+			continue
+		}
+		if k, isC := an.ConstInt(cmp.Y); isC && k == 0 {
+			return true
+		}
+	}
+	return false
 }
